@@ -82,6 +82,12 @@ CHECKS = {
    text="For every generated Modify script all single faults are enumerated: the client goes away after each message sent, after each response read, at the K-th response inside a batch (send failure, or flow-control stall followed by cancel), by half-close, cancel or transport error; Gets are abandoned after each received response 0..n; plus random sequences of 2-3 faults. Once the RPC has ended and its goroutines are parked, entries read through a fresh Get must equal the model state after some prefix of the sent operations that includes every acknowledged one, the learnt election id must be the maximum delivered, the session footprint must be gone, and a probe session (negotiate, win election, ADD, Get, Flush) must complete; a watchdog expiry counts only with a gribigo frame parked on a lock/channel.",
    note="Trusted: belief model (servers run with forward references disallowed so unanswered operations are deterministic); goroutine-state quiescence; emulation of transport faults at the stream interface (kernel-level failures out of reach).",
    design="DESIGN.md §4 C10"),
+ "C17": dict(
+   technique="property-based differential testing of each chk helper against a direct specification of 'present' on a capturing testing.TB",
+   level="exploration",
+   text="Generated result lists, Get responses, client errors and wanted items (70% absent by a one-field perturbation, all five entry kinds, every option combination) are given to each helper on a capturing testing.TB; a field-by-field specification written without cmp decides presence and both directions must agree; HasResultsCache is additionally compared with HasResult (cache-pass implies plain-pass, equality when lookup keys are unique) and documented test-author errors must be fatal.",
+   note="Trusted: the specification of presence transcribed from the helper documentation; one documented-ambiguous region (AllowUnimplemented vs details of other codes) is not asserted.",
+   design="DESIGN.md §4 C17"),
 }
 NOT_YET = {}
 
